@@ -887,6 +887,81 @@ Definition wf_generated_b (d : description) : bool :=
       | m :: r => forallb (fun m' => Bool.eqb (lite_of m') (lite_of m)) r
       end).
 
+(* ---- contrib/signaling.py 25-54: objects <-> JSON messages ----------------------- *)
+(* json.loads / json.dumps are trusted; a message is the dictionary, reduced to the keys
+   the helper reads (`None` = key absent, g_extra = some other key is present).  The value
+   of "candidate" is pre-lexed by the harness: falsy (""), without ":", or the token list
+   of what follows "candidate:" (CBad: int() of a numeric field raises). *)
+Definition s_offer : str := [111;102;102;101;114].
+Definition s_answer : str := [97;110;115;119;101;114].
+Definition s_candidate : str := [99;97;110;100;105;100;97;116;101].
+Definition s_bye : str := [98;121;101].
+
+Inductive sobj := SDesc (sdp ty : str) | SCand (c : cand) (mid : option str) (idx : option Z) | SBye.
+Inductive candfield := CFalsy | CNoColon | CToks (toks : list ctok) | CBad.
+Record smsg := mkMsg {
+  g_type : option str; g_sdp : option str; g_cand : option candfield;
+  g_id : option (option str); g_label : option (option Z); g_extra : bool }.
+
+Definition msg_of_obj (o : sobj) : smsg :=
+  match o with
+  | SDesc sdp ty => mkMsg (Some ty) (Some sdp) None None None false
+  | SCand c mid idx => mkMsg (Some s_candidate) None (Some (CToks (cand_to_tokens c))) (Some mid) (Some idx) false
+  | SBye => mkMsg (Some s_bye) None None None None false
+  end.
+
+Definition obj_of_msg (m : smsg) : result sobj :=
+  match g_type m with
+  | None => Crash                                            (* message["type"]: KeyError *)
+  | Some ty =>
+      if str_eqb ty s_answer || str_eqb ty s_offer then
+        (* RTCSessionDescription called with the dictionary as keyword arguments: exactly the keys sdp and type *)
+        match g_sdp m, g_cand m, g_id m, g_label m, g_extra m with
+        | Some sdp, None, None, None, false => Ok (SDesc sdp ty)
+        | _, _, _, _, _ => Crash
+        end
+      else
+        let bye := if str_eqb ty s_bye then Ok SBye else Crash in   (* assert message["type"] == "bye" *)
+        if str_eqb ty s_candidate then
+          match g_cand m with
+          | None => Crash                                    (* message["candidate"]: KeyError *)
+          | Some CFalsy => bye
+          | Some CNoColon => Crash                           (* .split(":", 1)[1]: IndexError *)
+          | Some CBad => ValueErr
+          | Some (CToks toks) =>
+              bind (cand_of_tokens toks) (fun c =>
+              match g_id m, g_label m with
+              | Some mid, Some idx => Ok (SCand c mid idx)
+              | _, _ => Crash                                (* KeyError *)
+              end)
+          end
+        else bye
+  end.
+
+Definition sx_sobj (x : sx) : sobj :=
+  let k := sx_z (sx_nth x 0) in
+  if Z.eqb k 0 then SDesc (sx_str (sx_nth x 1)) (sx_str (sx_nth x 2))
+  else if Z.eqb k 1 then SCand (sx_cand (sx_nth x 1)) (sx_opt sx_str (sx_nth x 2)) (sx_opt sx_z (sx_nth x 3))
+  else SBye.
+Definition of_sobj (o : sobj) : sx :=
+  match o with
+  | SDesc s t => L [A 0; of_str s; of_str t]
+  | SCand c mid idx => L [A 1; of_cand c; of_opt of_str mid; of_opt A idx]
+  | SBye => L [A 2]
+  end.
+Definition sx_candfield (x : sx) : candfield :=
+  let k := sx_z (sx_nth x 0) in
+  if Z.eqb k 0 then CFalsy else if Z.eqb k 1 then CNoColon
+  else if Z.eqb k 2 then CToks (sx_list sx_ctok (sx_nth x 1)) else CBad.
+Definition of_candfield (c : candfield) : sx :=
+  match c with CFalsy => L [A 0] | CNoColon => L [A 1] | CToks t => L [A 2; of_list of_ctok t] | CBad => L [A 3] end.
+Definition sx_smsg (x : sx) : smsg :=
+  mkMsg (sx_opt sx_str (sx_nth x 0)) (sx_opt sx_str (sx_nth x 1)) (sx_opt sx_candfield (sx_nth x 2))
+        (sx_opt (sx_opt sx_str) (sx_nth x 3)) (sx_opt (sx_opt sx_z) (sx_nth x 4)) (sx_b (sx_nth x 5)).
+Definition of_smsg (m : smsg) : sx :=
+  L [of_opt of_str (g_type m); of_opt of_str (g_sdp m); of_opt of_candfield (g_cand m);
+     of_opt (of_opt of_str) (g_id m); of_opt (of_opt A) (g_label m); of_b (g_extra m)].
+
 (* ---- entry point for the correspondence runs -------------------------------- *)
 Definition round (ls : list line) : sx :=
   let r1 := absorb ls in
@@ -917,9 +992,15 @@ Definition main (x : sx) : sx :=
        match r with Ok c => of_result of_cand (cand_of_tokens (cand_to_tokens c)) | _ => L [] end]
   else if Z.eqb k 3 then
     L [of_list of_ctok (cand_to_tokens (sx_cand (sx_nth x 1)))]
+  else if Z.eqb k 5 then
+    let o := sx_sobj (sx_nth x 1) in
+    L [of_smsg (msg_of_obj o); of_result of_sobj (obj_of_msg (msg_of_obj o))]
+  else if Z.eqb k 6 then
+    L [of_result of_sobj (obj_of_msg (sx_smsg (sx_nth x 1)))]
   else
     (* the constants the model shares with the source, compared by value *)
     L [of_zs (filter forbidden_pt (map Z.of_nat (seq 0 300)));
        of_list of_str [s_cname; s_msid; s_mslabel; s_label];
        of_list of_str [s_auto; s_actpass; s_client; s_active; s_server; s_passive];
-       of_list of_str [s_audio; s_video; s_None; s_typ; s_raddr; s_rport; s_tcptype]].
+       of_list of_str [s_audio; s_video; s_None; s_typ; s_raddr; s_rport; s_tcptype; s_offer; s_answer; s_candidate;
+                       s_bye]].
